@@ -138,7 +138,7 @@ pub fn run(ctx: &Ctx) {
     let cases = dirs.with(|d| exhaustive(d, wmax));
     ctx.extra("exhaustive_max_windowsize", serde_json::json!(wmax));
     enumerate(ctx, "exh-position-x-cause", &cases, true, |c, o| dirs.with(|d| judge(d, c, o)));
-    explore(ctx, "random", ctx.tier.pick(100_000, 2_000_000), strategy, |c: &Scenario, o| dirs.with(|d| judge(d, c, o)));
+    explore(ctx, "random", ctx.tier.pick(300_000, 4_000_000), strategy, |c: &Scenario, o| dirs.with(|d| judge(d, c, o)));
     super::c07w::run_wire(ctx);
 }
 
